@@ -116,12 +116,22 @@ func (r *recorder) flush(en *Env, e *h.Eng, cfg h.Cfg, label string) bool {
 	sort.Slice(r.evs, func(i, j int) bool { return r.evs[i].seq < r.evs[j].seq })
 	for k := 1; k <= n; k++ {
 		en.T.Emit(h.Ev{"ev": "reset", "key": k, "label": label})
-		for _, x := range r.evs {
+		for xi, x := range r.evs {
 			if x.key != k {
 				continue
 			}
 			if x.call {
-				en.T.Emit(h.Ev{"ev": "call", "c": x.c, "op": x.op, "v": x.v})
+				// the outcome of the call is repeated on its call event (a join of two logged events by client and
+				// order, nothing is inferred): the trace specification can then place the linearization point of a
+				// Get only where the register holds what the Get returned
+				xerr, xres := "none", 0
+				for _, y := range r.evs[xi+1:] {
+					if y.key == k && y.c == x.c && !y.call {
+						xerr, xres = y.err, y.res
+						break
+					}
+				}
+				en.T.Emit(h.Ev{"ev": "call", "c": x.c, "op": x.op, "v": x.v, "xerr": xerr, "xres": xres})
 			} else {
 				en.T.Emit(h.Ev{"ev": "ret", "c": x.c, "op": x.op, "err": x.err, "res": x.res})
 			}
@@ -155,7 +165,7 @@ func (g *gate) hook(name string) {
 func profConc(en *Env) {
 	stats := map[string]int{}
 	forcedRounds := 1 * en.Scale
-	randomRuns := 12 * en.Scale
+	randomRuns := 24 * en.Scale
 	if en.Thorough() {
 		forcedRounds = 6 * en.Scale
 		randomRuns = 300 * en.Scale
@@ -281,10 +291,10 @@ func forcedSchedules(en *Env, index string, stats map[string]int) {
 func randomHistory(en *Env, i int, stats map[string]int) {
 	r := en.R
 	nclients := []int{2, 3, 4, 8}[i%4]
-	ops := 10
+	ops := 12
 	if en.Thorough() && i%5 == 4 {
 		nclients = 16
-		ops = 6
+		ops = 10
 	}
 	cfg := h.Cfg{Index: h.IndexTypes[i%3], Shards: []int{1, 2, 16}[r.Intn(3)], IO: h.IOTypes[(i/3)%2], Limit: []int64{300, 2000, 1 << 20}[r.Intn(3)], Sync: h.SyncKinds[(i/2)%3], BPS: 64}
 	e := openFresh(en, cfg, 3)
